@@ -24,7 +24,8 @@ TRUSTED = ["hand model ESRVerif/Model/ToList.lean (tied by correspondence on the
            "sympy 1.14: sympify/kernS/evalf/powsimp/factor/str/== on numbers (which tree comes out is observed, not modelled)",
            "harness/oracle_tree.py (independent evaluator) and sympy.lambdify of the formula parsed with esr.fitting.sympy_symbols.sympy_locs",
            "Python eval() inside generator.is_float is modelled for numeric literals only"]
-ASSUMPTIONS = ["str() of a sympy number denotes its value (Float: 15 significant digits, compared to 1e-8 relative)",
+ASSUMPTIONS = ["str() of a sympy number denotes its value (Float: 15 significant digits; values compared to 1e-8 relative plus the spread caused by a last-digit error of every printed float)",
+               "a formula with none of the six evaluation points admissible (all power bases positive; typically nowhere a real function, e.g. (-1.0)**2.5 or log_abs(a0-a0)) is not held to name only basis operators (labels I, zoo, -oo, sinh, im ...): counted in coverage.unknown_label_without_admissible_point_not_counted; every other failure kind is still reported for it",
                "'never inside exponents' is read as the code documents it: direct children of pow keep their number; a number deeper inside an exponent is replaced (counted in coverage.interpretation_deeper_exponent_replaced, not alarmed on)",
                "power bases: every Pow node of the formula's sympy tree and of the tree the conversion chose, and every explicit **, pow, sqrt, inv, cube argument and denominator, must be positive at an evaluation point",
                "the four parse variants and the minimum-node-count choice are exercised, not modelled: the model is fed the tree the real code chose"]
@@ -265,7 +266,7 @@ def formula_points(formula, points, chosen):
     names = ["x"] + PARAMS
     ee = sympy.sympify(formula, locals=dict(sympy_locs))
     extra = [s.name for s in ee.free_symbols if s.name not in names]
-    if extra or ee.has(sympy.zoo, sympy.nan, sympy.oo, sympy.I):
+    if extra or ee.has(sympy.zoo, sympy.nan, sympy.oo, -sympy.oo, sympy.I):
         return None                                   # foreign symbol, or nowhere a finite real function: out of scope
     bases = _pow_bases(ee)
     for c in chosen:
@@ -380,6 +381,28 @@ def _ops_sig(labels):
     return ",".join(sorted(set(l for l in labels if ot.number_value(l) is None and not re.match(r"(a\d+|x)\Z", l))))
 
 
+def _print_slack(names, basis, env, v):
+    """how far the value can move when every printed float (15 significant digits, relative error <= 5e-15) is off in
+    its last digit: ill-conditioned formulas (sin of a huge power) must not be reported as a change of function"""
+    eps = 1e-12
+    tot = 0.0
+    for j, l in enumerate(names):
+        x = ot.number_value(l)
+        if x is None or not re.search(r"[.eE]", l) or x == 0 or not math.isfinite(x):
+            continue
+        for sgn in (1.0, -1.0):
+            trial = list(names)
+            trial[j] = repr(x * (1.0 + sgn * eps))
+            try:
+                w = ot.eval_labels(trial, basis, env)
+            except Exception:
+                return float("inf")
+            if not math.isfinite(w):
+                return float("inf")
+            tot += abs(w - v) / 2.0
+    return 0.04 * tot
+
+
 def _check_labels(api, labels, basis, pts, fails, rename, param_env=None):
     """well-formed + same function. returns parsed tree or None"""
     names = [ot.api_name(l) for l in labels] if rename else list(labels)
@@ -401,7 +424,7 @@ def _check_labels(api, labels, basis, pts, fails, rename, param_env=None):
             return tree
         except (ArithmeticError, ValueError, OverflowError):
             continue
-        if not _close(v, fv):
+        if not _close(v, fv) and abs(v - fv) > _print_slack(names, basis, e2, v):
             fails.append(("%s:value-mismatch:%s" % (api, _ops_sig(names)),
                           "%s labels %r evaluate to %.12g but the formula is %.12g at %s (all power bases positive there)" % (
                               api, labels, v, fv, {k: round(x, 6) for k, x in e2.items()})))
@@ -534,8 +557,7 @@ def _oracle(rec, formula, basis, points, chosen):
             continue                                   # already reported
         l0 = r0["labels"]
         if not r["ok"]:
-            root = len(l0) == 1 and ot.number_value(l0[0]) is not None
-            fails.append(("%s:raises:%s%s" % (api, r["exc"], ":root-number" if root else ""),
+            fails.append(("%s:raises:%s" % (api, r["exc"]),
                           "replace_floats=True on %r raised %s (labels without replacement: %r)" % (formula, r["exc"], l0)))
             continue
         l1 = r["labels"]
@@ -580,6 +602,12 @@ def _oracle(rec, formula, basis, points, chosen):
                 e2[nk] = env[old] if v is None else v
             return e2
         _check_labels(api, l1, basis, pts, fails, rename=False, param_env=penv)
+    if rec["admissible"] == 0:
+        # none of the evaluation points has all power bases positive (typically a negative constant under a fractional
+        # power: nowhere a real function): labels such as I, zoo, sinh, im are not held against the conversion
+        kept = [f_ for f_ in fails if ":unknown-label:" not in f_[0]]
+        rec["degenerate_dropped"] = len(fails) - len(kept)
+        fails[:] = kept
     # without replacement no numeric constant may turn into a parameter: parameters of the result ⊆ parameters of the formula
     for api, key in (("FIT", "F0"), ("AIF", "A0")):
         r = rec[key]
@@ -723,6 +751,18 @@ def run(ctx):
     _compare(ctx, jobs, recs, pts)
 
 
+def _model(ctx, lines):
+    """the executable model; if it cannot be built/run (e.g. the extractor failed closed) the correspondence is broken,
+    but the oracle on the real code must still run"""
+    if not lines:
+        return []
+    try:
+        return common.model(lines)
+    except Exception as e:
+        ctx.disagree("corr:model-unavailable", repr(e)[:300])
+        return ["model-unavailable"] * len(lines)
+
+
 def _compare(ctx, jobs, recs, pts):
     ops, want, what = [], [], []
     skipped = 0
@@ -766,15 +806,17 @@ def _compare(ctx, jobs, recs, pts):
             except ot.Malformed:
                 continue
             except (ArithmeticError, ValueError, OverflowError):
-                wv = "nonfinite"
+                continue                               # Python raises where IEEE arithmetic continues (inf, nan): not comparable
         ev_ops.append("tleval %s %s %s %s %s" % (_bs(basis[0]), _bs(basis[1]), _bs(basis[2]),
                                                  " ".join(common.f2b(env0[n]) for n in ["x"] + PARAMS), " ".join(s2["labels"])))
         ev_want.append(wv)
         ev_what.append((f, bname))
-    ev_out = common.model(ev_ops) if ev_ops else []
+    ev_out = _model(ctx, ev_ops)
     ev_bad = 0
     for o, w, m, wh in zip(ev_ops, ev_want, ev_out, ev_what):
-        if m == "err":
+        if m == "model-unavailable":
+            okk = False
+        elif m == "err":
             okk = (w == "err")
         else:
             mv = common.b2f(m)
@@ -783,7 +825,7 @@ def _compare(ctx, jobs, recs, pts):
             ev_bad += 1
             if ev_bad <= 3:
                 ctx.disagree("corr:evalLabels", "formula %r basis %s: oracle=%r model=%s op=%s" % (wh[0], wh[1], w, m if m == "err" else common.b2f(m), o[:300]))
-    out = common.model(ops) if ops else []
+    out = _model(ctx, ops)
     bad = {}
     nops = {}
     for o, w, m, wh in zip(ops, want, out, what):
@@ -841,6 +883,7 @@ def _compare(ctx, jobs, recs, pts):
     ctx.extra["labels_not_sendable"] = skipped
     ctx.extra["operator_labels_seen"] = dict(sorted(label_kinds.items(), key=lambda kv: -kv[1])[:40])
     ctx.extra["no_admissible_point"] = n_noadm
+    ctx.extra["unknown_label_without_admissible_point_not_counted"] = sum(r.get("degenerate_dropped", 0) for r in recs)
     ctx.extra["interpretation_deeper_exponent_replaced"] = n_interp
     ctx.extra["evaluation_points"] = [{k: round(v, 4) for k, v in p.items()} for p in pts]
     try:
